@@ -215,7 +215,7 @@ fn expr_v(e: &Expr) -> Value {
     Expr::Break(b) => json!({"k":"break","e":opt_e(&b.expr),"ln":line}),
     Expr::Continue(_) => json!({"k":"continue","ln":line}),
     Expr::Return(r) => json!({"k":"return","e":opt_e(&r.expr),"ln":line}),
-    Expr::Closure(c) => json!({"k":"closure","params":c.inputs.iter().map(pat_v).collect::<Vec<_>>(),"body":expr_v(&c.body),"ln":line}),
+    Expr::Closure(c) => json!({"k":"closure","params":c.inputs.iter().map(pat_v).collect::<Vec<_>>(),"body":expr_v(&c.body),"move":c.capture.is_some(),"ln":line}),
     Expr::Struct(s) => json!({"k":"struct","path":path_v(&s.path),
       "fields":s.fields.iter().map(|f| json!([ts(&f.member), expr_v(&f.expr)])).collect::<Vec<_>>(),
       "rest": s.rest.as_ref().map(|r| expr_v(r)),"ln":line}),
